@@ -6,6 +6,7 @@ import (
 	"crypto/ed25519"
 	"crypto/sha256"
 	"crypto/tls"
+	"database/sql"
 	"encoding/json"
 	"flag"
 	"fmt"
@@ -158,10 +159,33 @@ func bastionE2EMain(args []string) error {
 	defer sb.close()
 	api := ""
 	alive := func() bool { return true }
+	var extLock func() (func(), error)
 	if *prod != "" {
 		db := filepath.Join(*dir, fmt.Sprintf("bastion-e2e-prod-%d-%d.db", *seed, os.Getpid()))
+		extLock = func() (func(), error) {
+			// a second connection to the same file: BEGIN; SELECT ... leaves a SHARED lock until the transaction ends
+			other, err := sql.Open("sqlite3", db)
+			if err != nil {
+				return nil, err
+			}
+			tx, err := other.Begin()
+			if err != nil {
+				other.Close()
+				return nil, err
+			}
+			var n int
+			if err := tx.QueryRow("SELECT count(*) FROM chkpts").Scan(&n); err != nil {
+				tx.Rollback()
+				other.Close()
+				return nil, fmt.Errorf("outside reader: %v", err)
+			}
+			return func() { tx.Rollback(); other.Close() }, nil
+		}
 		defer func() { os.Remove(db); os.Remove(db + "-journal") }()
-		p, err := startProd(prodCfg{Bin: *prod, Dir: *dir, Tag: fmt.Sprintf("e2e-%d-%d", *seed, os.Getpid()), Yaml: prodYaml(ws), WitSKey: base.WitKey.SKey(), DB: db,
+		p, err := startProd(prodCfg{Bin: *prod, Dir: *dir, Tag: fmt.Sprintf("e2e-%d-%d", *seed, os.Getpid()), Yaml: prodYaml(ws), WitSKey: base.WitKey.SKey(),
+			// (the operator's DSN: a busy timeout well below the endpoint's own 5 s write timeout, so that a commit that cannot get its lock is
+			//  ANSWERED - with the library's default of 5 s the stream is reset at the same moment and the client sees no status at all)
+			DB:      "file:" + db + "?_busy_timeout=700",
 			Bastion: sb.addr(), CAFile: sb.caFile, Rate: *limit, RateSet: true})
 		if err != nil {
 			return err
@@ -235,7 +259,7 @@ func bastionE2EMain(args []string) error {
 			sort.Strings(s.logs)
 			return s
 		}
-		ev, err := driveBastion(w, r, w.P.RunTag, "e2e", "id", *limit, bastionFront{post: post, snap: snap})
+		ev, err := driveBastion(w, r, w.P.RunTag, "e2e", "id", *limit, bastionFront{post: post, snap: snap, extLock: extLock})
 		if err != nil {
 			return err
 		}
